@@ -39,6 +39,21 @@ static std::string hex(const char* p, std::size_t n) { return hex(std::string(p,
 
 static std::string argsHex(binlog::Range r) { const std::size_t n = r.size(); return hex(r.view(n), n); }
 
+#ifdef VERIF_ALLOC_LIMIT
+// a memory-limited environment: allocations above the limit fail with std::bad_alloc (which the reader must report, not crash on),
+// instead of zero-filling gigabytes for every hostile size field. malloc/free stay AddressSanitizer's.
+#include <new>
+#include <cstdlib>
+void* operator new(std::size_t n) { if (n > std::size_t(VERIF_ALLOC_LIMIT)) throw std::bad_alloc(); void* p = std::malloc(n ? n : 1); if (!p) throw std::bad_alloc(); return p; }
+void* operator new[](std::size_t n) { return operator new(n); }
+void* operator new(std::size_t n, const std::nothrow_t&) noexcept { return n > std::size_t(VERIF_ALLOC_LIMIT) ? nullptr : std::malloc(n ? n : 1); }
+void* operator new[](std::size_t n, const std::nothrow_t& t) noexcept { return operator new(n, t); }
+void operator delete(void* p) noexcept { std::free(p); }
+void operator delete[](void* p) noexcept { std::free(p); }
+void operator delete(void* p, std::size_t) noexcept { std::free(p); }
+void operator delete[](void* p, std::size_t) noexcept { std::free(p); }
+#endif
+
 static std::string rawnum(const void* p, std::size_t n)
 {
   unsigned char b[16] = {0}; memcpy(b, p, n);
@@ -55,7 +70,7 @@ struct VisitRecorder
   void visit(bool v) { leaf('y', v); } void visit(char v) { leaf('c', v); }
   void visit(std::int8_t v) { leaf('b', v); } void visit(std::int16_t v) { leaf('s', v); } void visit(std::int32_t v) { leaf('i', v); } void visit(std::int64_t v) { leaf('l', v); }
   void visit(std::uint8_t v) { leaf('B', v); } void visit(std::uint16_t v) { leaf('S', v); } void visit(std::uint32_t v) { leaf('I', v); } void visit(std::uint64_t v) { leaf('L', v); }
-  void visit(float v) { leaf('f', v); } void visit(double v) { leaf('d', v); } void visit(long double v) { leaf('D', v); }
+  void visit(float v) { leaf('f', v); } void visit(double v) { leaf('d', v); } void visit(long double v) { sep(); o << 'A' << 'D' << rawnum(&v, 10); }  // 10 value bytes; the 6 padding bytes are indeterminate
   template <typename In> bool visit(mserialize::Visitor::SequenceBegin sb, In&) { sep(); o << '[' << sb.size << ':' << hex(std::string(sb.tag.data(), sb.tag.size())); return false; }
   void visit(mserialize::Visitor::SequenceEnd) { sep(); o << ']'; }
   template <typename In> bool visit(mserialize::Visitor::TupleBegin tb, In&) { sep(); o << '(' << hex(std::string(tb.tag.data(), tb.tag.size())); return false; }
